@@ -1,6 +1,9 @@
 package fx
 
-import "errors"
+import (
+	"errors"
+	"sync"
+)
 
 // ---- T1: reference-counted ring ---------------------------------------------------------------------------------------
 
@@ -129,4 +132,35 @@ func sum(b []byte) int {
 		s += int(x)
 	}
 	return s
+}
+
+// ---- T3 ---------------------------------------------------------------------------------------------------------------
+
+var t3pool = sync.Pool{New: func() any { b := make([]byte, 1500); return &b }}
+
+// GoodT3Scratch gives the buffer back exactly once (deferred).
+func GoodT3Scratch(src []byte) int {
+	buf, ok := t3pool.Get().(*[]byte)
+	if !ok {
+		return 0
+	}
+	defer t3pool.Put(buf)
+	if len(src) > len(*buf) {
+		return -1
+	}
+	return copy(*buf, src)
+}
+
+// BadT3Scratch gives it back twice on the error path (explicitly and through the defer).
+func BadT3Scratch(src []byte) int {
+	buf, ok := t3pool.Get().(*[]byte)
+	if !ok {
+		return 0
+	}
+	defer t3pool.Put(buf)
+	if len(src) > len(*buf) {
+		t3pool.Put(buf)
+		return -1
+	}
+	return copy(*buf, src)
 }
